@@ -60,7 +60,7 @@ func checkC03(c *Ctx) {
 	}
 	keyT := func(in *absint.Interp) absint.Value { return in.Sym("key", in.NamedType("", "AES128Key"), false) }
 	// ---- exported EncryptFRMPayload
-	for _, L := range []int{0, 1, 15, 16, 17, 31, 32, 40} {
+	for _, L := range []int{0, 1, 15, 16, 17, 31, 32, 40, 222, 240, 241, 242, 255} {
 		in := absint.NewInterp(c.Prog)
 		d := in.D
 		cfg := fmt.Sprintf("EncryptFRMPayload/len%d", L)
@@ -168,6 +168,7 @@ func checkC03(c *Ctx) {
 		}
 	}
 	flowC03(c)
+	statelessRoots(c, "R7.stateless", "EncryptFRMPayload", "EncryptFOpts", "PHYPayload.EncryptFRMPayload", "PHYPayload.DecryptFRMPayload", "PHYPayload.EncryptFOpts", "PHYPayload.DecryptFOpts")
 }
 
 func c03Methods(c *Ctx, mt int64, v avariant, n, m int) {
